@@ -151,7 +151,9 @@ type Val struct {
 	Zset    []ZMember
 	Hash    []HField
 	Stream  *StreamVal
-	Payload []byte // kind restored: the RESTORE payload
+	// StreamVer is the RDB stream format version (1..4) of an expected value
+	StreamVer int
+	Payload   []byte // kind restored: the RESTORE payload
 	TTL     int64  // milliseconds handed to RESTORE / PEXPIRE; 0 = none
 	Idle    string
 	Freq    string
@@ -318,6 +320,17 @@ func (c *Conn) apply(cmd string, args []interface{}) (interface{}, error) {
 			return string(argBytes(args[i]))
 		}
 		return ""
+	}
+	// logical clock: a key whose TTL is 1 ms ("already past its expiry") is
+	// gone by the time the next request touching it arrives
+	if cmd != "select" && cmd != "ping" && cmd != "script" && cmd != "function" && len(args) > 0 {
+		k := key(0)
+		if cmd == "xgroup" {
+			k = key(1)
+		}
+		if v := d[k]; v != nil && v.TTL == 1 {
+			delete(d, k)
+		}
 	}
 	get := func(k, kind string) (*Val, bool) {
 		v := d[k]
@@ -628,13 +641,17 @@ func (c *Conn) xadd(d map[string]*Val, args []interface{}, key func(int) string,
 	return id, nil
 }
 
-// Snapshot renders the whole keyspace canonically: "db/<hexkey> <value>".
+// Snapshot renders the whole keyspace canonically: "db/<hexkey> <value>"; keys
+// about to expire (TTL 1 ms) count as expired.
 func (t *Target) Snapshot() []string {
 	t.mu.Lock()
 	defer t.mu.Unlock()
 	var out []string
 	for db, m := range t.DBs {
 		for k, v := range m {
+			if v.TTL == 1 {
+				continue // expires at once
+			}
 			out = append(out, fmt.Sprintf("%d/%s %s", db, hx([]byte(k)), v.Canon()))
 		}
 	}
